@@ -18,6 +18,7 @@ Definition scalar_ok (k : scalar_kind) (v : pv) : Prop :=
   | KBoolean => exists b, v = PBool b
   | KAny => v <> PNone                                 (* transparent scalar: any non-null value *)
   | KTag => exists x, v = PStr x /\ x <> []
+  | KOdd => exists z, v = PInt z /\ Z.odd z = true
   end.
 
 (* [conforms s t v]: v is a value a resolver may receive for input type t.
@@ -121,6 +122,9 @@ Inductive spelled (s : schema) : ity -> json -> value -> Prop :=
     spelled s (INamed nn n) (JFloat r) (VFloat txt lc)
 | SP_tag nn n c x b lc :
     alookup n s = Some (TDScalar KTag) -> spelled s (INamed nn n) (JStr (c :: x)) (VString (c :: x) b lc)
+| SP_odd nn n z txt lc :
+    alookup n s = Some (TDScalar KOdd) -> parse_int_text txt = Some z -> Z.odd z = true -> z <> 13%Z ->
+    spelled s (INamed nn n) (JInt z) (VInt txt lc)
 | SP_enum nn n vals nm v lc :
     alookup n s = Some (TDEnum vals) -> alookup nm vals = Some v ->
     spelled s (INamed nn n) (JStr nm) (VEnum nm lc)
@@ -167,6 +171,7 @@ Definition scalar_kind_foreign (k : scalar_kind) (j : json) : Prop :=
   | KID, (JBool _ | JFloat _ | JList _ | JObj _) => True
   | KBoolean, (JInt _ | JFloat _ | JStr _ | JList _ | JObj _) => True
   | KTag, (JBool _ | JInt _ | JFloat _ | JList _ | JObj _) => True
+  | KOdd, (JBool _ | JFloat _ | JStr _ | JList _ | JObj _) => True
   | _, _ => False
   end.
 
@@ -190,6 +195,7 @@ Definition scalar_kind_mismatch (k : scalar_kind) (j : json) : Prop :=
   | KID, (JBool _ | JFloat _ | JList _ | JObj _) => True
   | KBoolean, (JInt _ | JFloat _ | JStr _ | JList _ | JObj _) => True
   | KTag, (JBool _ | JInt _ | JFloat _ | JList _ | JObj _) => True
+  | KOdd, (JBool _ | JFloat _ | JStr _ | JList _ | JObj _) => True
   | _, _ => False
   end.
 
@@ -231,6 +237,7 @@ Definition literal_kind_mismatch (k : scalar_kind) (l : value) : Prop :=
   | KID, (VFloat _ _ | VBool _ _) => True
   | KBoolean, (VInt _ _ | VFloat _ _ | VString _ _ _) => True
   | KTag, (VInt _ _ | VFloat _ _ | VBool _ _) => True
+  | KOdd, (VFloat _ _ | VString _ _ _ | VBool _ _) => True
   | _, _ => False
   end.
 
@@ -295,3 +302,10 @@ Definition schema_inputs (s : schema) : Prop :=
   forall n fs f, alookup n s = Some (TDInput fs) -> In f fs -> input_ty s (f_ty f).
 (* a type expression that may be used for an argument / variable / input field *)
 Definition usable (s : schema) (t : ity) : Prop := bound s t /\ input_ty s t.
+
+(* scalars whose parsers raise nothing but ValueError / TypeError (all the
+   library's own, the transparent one, and well-behaved user scalars); a user
+   scalar that raises anything else makes coercion raise that exception *)
+Definition raising_scalar (k : scalar_kind) : bool := match k with KOdd => true | _ => false end.
+Definition scalars_behaved (s : schema) : Prop :=
+  forall n k, alookup n s = Some (TDScalar k) -> raising_scalar k = false.
